@@ -24,6 +24,6 @@ hprop.install(globals(), hprop.HistoryProperty(
     ],
     quick=(16, 70, 40), thorough=(16, 800, 60), probes=True, retains=True,
     # plugs are throttled co-simulation style as well: two effective powers for one vehicle type exercise shared model tables
-    instr_bias={"throttle": True, "rush": True},
+    instr_bias={"throttle": True, "rush": True, "kinds": [2, 2, 2, 2, 2, 1, 1, 0, 3, 4, 5, 6, 7, 8]},
 ))
 FLOORS = {"quick": {"retained_state_checks": 4000, "branches": 190}, "thorough": {"branches": 5000}}
